@@ -10,3 +10,4 @@
 pub mod model;
 pub mod rec;
 pub mod run;
+pub mod vals;
